@@ -587,6 +587,13 @@ func (e *Evaluator) call(vals map[ssa.Value]Val, c *ssa.Call, env Env, depth int
 	if len(outs) == 0 {
 		return Val{}
 	}
+	// field stores made by a callee with a single outcome are visible to the caller
+	// (constructors delegating to a constructor)
+	if len(outs) == 1 {
+		for name, v := range outs[0].Stores {
+			vals[storeKey{name}] = v
+		}
+	}
 	// merge outcomes per result index
 	n := len(outs[0].Results)
 	merged := make([]Val, n)
